@@ -32,6 +32,11 @@ DESIGNED = [
     {"hermitian": True, "sizes": [2, 1, 3], "masks": {2: [(0, 2)], 0: [(0, 1)]}, "order": [2, 0]},    # keys 0 and 2, inserted in reverse
     {"hermitian": False, "sizes": [1, 3], "masks": {1: [(0, 2), (2, 0), (1, 0)]}, "order": [1]},
     {"hermitian": True, "sizes": [3, 2], "masks": {0: [(0, 1)], 1: []}, "order": [1, 0]},             # an empty mask next to a partial one
+    # dense blocks of the caller's (nested lists; a BlockSeries of blocks) whose entries off the diagonal of H_0 are rounding noise: they come back as they were
+    {"hermitian": True, "sizes": [2, 3], "E": [1, 4, 8, 10, 13],
+     "variant": {"carrier": "dense", "designation": "blocked", "container": "dict", "int_h0": False, "h0_noise": 424242, "scale_exp": 0}},
+    {"hermitian": True, "sizes": [2, 2], "E": [2, 5, 9, 12], "fd_tuple": [1],
+     "variant": {"carrier": "dense", "designation": "blockseries-blocked", "container": "dict", "int_h0": False, "h0_noise": 434343, "scale_exp": 0}},
     {"hermitian": True, "sizes": [2, 2], "E": [0, 0, 2, 5], "fd_tuple": [0]},                        # an identically zero H_0 block, fully diagonalised
     {"hermitian": False, "sizes": [2, 1, 2], "E": [0, 0, 3, 7, 7], "fd_tuple": [0, 2]},              # a zero block and a degenerate one, both fully diagonalised
     {"hermitian": True, "sizes": [2, 2], "E": [1, 3, 0, 0], "variant": {"carrier": "dense", "designation": "indices", "container": "dict", "int_h0": False, "scale_exp": 0}},                                         # an identically zero H_0 block that is not the first one, equal block sizes
